@@ -20,7 +20,9 @@ logger = logging.getLogger('IsoQuant')
 
 def db2gtf(db, gtf, _=None):
     logger.info("Converting gene annotation file to .gtf format (takes a while)...")
-    with open(gtf, "w") as f:
+    # the file may be in use by another run (it is shared via the per-user config): never expose a partially written file
+    tmp_gtf = gtf + "." + str(os.getpid()) + ".tmp"
+    with open(tmp_gtf, "w") as f:
         gene_db = gffutils.FeatureDB(db)
         for g in gene_db.features_of_type('gene', order_by=('seqid', 'start')):
             f.write(str(g) + '\n')
@@ -28,6 +30,7 @@ def db2gtf(db, gtf, _=None):
                 f.write(str(t) + '\n')
                 for e in gene_db.children(t, featuretype=('exon', 'CDS')):
                     f.write(str(e) + '\n')
+    os.replace(tmp_gtf, gtf)
     logger.info("Gene database written to " + gtf)
 
 
